@@ -444,3 +444,123 @@ func aCaseForATypeCanBeReachedByAValueOfThatType(c *core.Ctx) {
 	}
 	c.Stat("type_cases_in_equals_and_compare", n)
 }
+
+// ---------------------------------------------------------------------------
+// theTargetOfACompoundAssignmentIsReadBeforeTheValueIsEvaluated (C01):
+// `x += f()` reads x, then evaluates f(), then applies the operator: left to
+// right.  In the compile methods of the nodes that have an operator and a
+// value (assignment to a name, to an attribute, to an element), no path goes
+// from the compile of node.Value() through the emission of a read of the
+// target (LoadGlobal, LoadFast, LoadFree, LoadAttr, BinarySubscr) to the
+// emission of BinaryOp: a target that is read after the value sees what the
+// value's evaluation did to it (a Swap keeps the operand order and hides the
+// change from every program whose right-hand side does not write the target).
+func theTargetOfACompoundAssignmentIsReadBeforeTheValueIsEvaluated(c *core.Ctx) {
+	p := c.P
+	reads := map[string]bool{"LoadGlobal": true, "LoadFast": true, "LoadFree": true, "LoadAttr": true, "BinarySubscr": true}
+	n := 0
+	for _, fn := range repoFns(p, "compiler") {
+		if fn.Parent() != nil || fn.Signature.Recv() == nil || len(fn.Params) != 2 {
+			continue
+		}
+		node := fn.Params[1]
+		ms := types.NewMethodSet(node.Type())
+		hasOp, hasVal := false, false
+		for i := 0; i < ms.Len(); i++ {
+			switch ms.At(i).Obj().Name() {
+			case "Operator":
+				hasOp = true
+			case "Value":
+				hasVal = true
+			}
+		}
+		if !hasOp || !hasVal {
+			continue
+		}
+		// classify the instructions of the function
+		kind := map[ssa.Instruction]string{}
+		for _, b := range fn.Blocks {
+			for _, in := range b.Instrs {
+				ci, ok := in.(ssa.CallInstruction)
+				if !ok {
+					continue
+				}
+				cal := ci.Common().StaticCallee()
+				if cal == nil || cal.Signature.Recv() == nil || len(ci.Common().Args) < 2 {
+					continue
+				}
+				switch cal.Name() {
+				case "compile":
+					arg := ci.Common().Args[1]
+					for {
+						if ch, ok := arg.(*ssa.ChangeInterface); ok {
+							arg = ch.X
+						} else if mi, ok := arg.(*ssa.MakeInterface); ok {
+							arg = mi.X
+						} else {
+							break
+						}
+					}
+					for _, o := range core.Origins(arg) {
+						if cl, ok := o.(*ssa.Call); ok {
+							if f := cl.Call.StaticCallee(); f != nil && f.Name() == "Value" && len(cl.Call.Args) > 0 && cl.Call.Args[0] == ssa.Value(node) {
+								kind[in] = "value"
+							}
+						}
+					}
+				case "emit":
+					if k, ok := ci.Common().Args[1].(*ssa.Const); ok {
+						name := opConstName(p, k)
+						if reads[name] {
+							kind[in] = "read"
+						} else if name == "BinaryOp" {
+							kind[in] = "binop"
+						}
+					}
+				}
+			}
+		}
+		k := 0
+		for _, b := range fn.Blocks {
+			for i, in := range b.Instrs {
+				if kind[in] != "value" {
+					continue
+				}
+				n++
+				k++
+				type st struct {
+					b *ssa.BasicBlock
+					s int
+				}
+				seen := map[st]bool{}
+				bad := ""
+				var walk func(b *ssa.BasicBlock, from, s int)
+				walk = func(b *ssa.BasicBlock, from, s int) {
+					for _, in2 := range b.Instrs[from:] {
+						switch kind[in2] {
+						case "read":
+							s = 1
+						case "binop":
+							if s == 1 && bad == "" {
+								bad = p.Pos(in2.Pos())
+							}
+							return
+						case "value":
+							return
+						}
+					}
+					for _, su := range b.Succs {
+						if !seen[st{su, s}] {
+							seen[st{su, s}] = true
+							walk(su, 0, s)
+						}
+					}
+				}
+				walk(b, i+1, 0)
+				c.Check(bad == "", core.SSAName(fn)+"|value-compiled-after-the-target-is-read|"+sprintf("%d", k), p.Pos(in.Pos()),
+					core.SSAName(fn)+ife(bad == "", " reads the target of a compound assignment before it compiles the value", " compiles the value and only then emits the read of the target that the BinaryOp at "+bad+" combines it with: `x += f()` uses the x that f() left behind, not the x that stood there when the statement began"))
+			}
+		}
+	}
+	c.Stat("value_compiles_in_operator_nodes", n)
+}
